@@ -117,8 +117,14 @@ func envStr(name, def string) string {
 // length 0..72 (block-wise ASCII scans, 8/16/64-byte chunks).
 
 func TestC09StringSizes(t *testing.T) {
+	prop := envStr("VERIF_PROP", "C09") // also run under C05 and C11 (the failing calls below)
 	n := 0
+	totals := []int{}
 	for total := 0; total <= 72; total++ {
+		totals = append(totals, total)
+	}
+	totals = append(totals, 126, 127, 128, 129, 130, 254, 255, 256, 257, 258, 1022, 1023, 1024, 1025, 1026, 4095, 4096, 4097, 65535, 65536, 65537)
+	for _, total := range totals {
 		for _, mb := range []string{"", "é", "𝒳", "ࠀ"} {
 			for _, posKind := range []int{0, 1, 2, 3} {
 				if mb == "" && posKind > 0 {
@@ -136,16 +142,25 @@ func TestC09StringSizes(t *testing.T) {
 				s := string(base[:pos]) + mb + string(base[pos:])
 				doc := `{"s":` + strconv.Quote(s) + `,"t":"a"}`
 				for _, e := range []string{"reverse(s)", "length(s)", "reverse(reverse(s)) == s", "length(reverse(s)) == length(s)", "ends_with(s, 'h')", "starts_with(s, 'ab')", "contains(s, 'é')", "join('-', [s, t, s])",
-					"sort([s, t, 'b'])", "max([s, t])", "to_string(s)", "to_number(s)", "[s, s] | [1]", "s == reverse(reverse(s))", "{k: s}.k", "not_null(s)"} {
-					run(t, Case{Property: "C09", Kind: "diff", Expr: e, Doc: doc, Extra: map[string]interface{}{"cell": "strsize"}})
+					"sort([s, t, 'b'])", "max([s, t])", "to_string(s)", "to_number(s)", "[s, s] | [1]", "s == reverse(reverse(s))", "{k: s}.k", "not_null(s)",
+					// the string as the offending argument of a failing call (error texts that quote, shorten or escape it)
+					"abs(s)", "keys(s)", "sum([s])", "avg([`1`, s])", "join(s, [`1`])", "sort([s, `1`])", "max_by([@], &s) | abs(s)", "length(abs(s))", "ceil(s) || s", "merge(s)", "map(&abs(@), [s])", "sort_by([@, @], &abs(s))", "nosuch(s)", "to_number(s) | abs(s)"} {
+					run(t, Case{Property: prop, Kind: "diff", Expr: e, Doc: doc, Extra: map[string]interface{}{"cell": "strsize"}})
 					n++
+				}
+				if !strings.ContainsAny(s, "'\\") && total <= 1100 {
+					// the same string written in the expression: raw string, quoted identifier, JSON literal
+					for _, e := range []string{"abs('" + s + "')", "length('" + s + "')", "keys(`" + strconv.Quote(s) + "`)", "\"" + s + "\"", "@.\"" + s + "\" || abs('" + s + "')", "{\"" + s + "\": t}", "reverse('" + s + "') == reverse(s)"} {
+						run(t, Case{Property: prop, Kind: "diff", Expr: e, Doc: doc, Extra: map[string]interface{}{"cell": "strsize"}})
+						n++
+					}
 				}
 			}
 		}
 	}
-	st := statsFor("C09")
+	st := statsFor(prop)
 	st.mu.Lock()
-	st.Exhaustive["C09.string-sizes"] = fmt.Sprintf("string functions on ASCII strings of every byte length 0..72 with no / one 2-, 3- or 4-byte character at the start, end, middle or next-to-last position: %d cases", n)
+	st.Exhaustive[prop+".string-sizes"] = fmt.Sprintf("string functions, succeeding and failing, on ASCII strings of every byte length 0..72 and around 128, 256, 1024, 4096, 65536 with no / one 2-, 3- or 4-byte character at the start, end, middle or next-to-last position, as document value and written in the expression: %d cases", n)
 	st.mu.Unlock()
 }
 
